@@ -33,6 +33,21 @@ Theorem C12_selection_is_closure_guarded_partial : forall cfg ns g S,
 Proof. exact selection_is_closure_guarded. Qed.
 Print Assumptions C12_selection_is_closure_guarded_partial.
 
+(* the full statement holds for the same traversal started from the property's roots
+   ([select_for_build_spec]: what a repaired selector computes; the check accepts either variant) *)
+Theorem C12_repaired_selection_is_closure : forall cfg ns g S,
+  topo g -> select_for_build_spec cfg ns g = Selected S ->
+  forall n, In n S <-> exists r, In r (spec_roots cfg ns g) /\ reach_refl g n r.
+Proof. exact selection_spec_is_closure. Qed.
+Print Assumptions C12_repaired_selection_is_closure.
+
+Theorem C12_repaired_platform_error : forall cfg ns g,
+  topo g ->
+  (select_for_build_spec cfg ns g = PlatformError <->
+   exists r n, In r (spec_roots cfg ns g) /\ reach g n r /\ node_matches_platform cfg (attr ns n) = false).
+Proof. exact platform_error_spec_iff. Qed.
+Print Assumptions C12_repaired_platform_error.
+
 (* the platform error: full statement REFUTED (an alias of a platform-incompatible target turns
    the platform skip into the error), true for the code's roots and under the guard *)
 Theorem C12_platform_error_refuted :
